@@ -350,6 +350,27 @@ func randomCall(r *rand.Rand, ts *TraceSpec, last *Event, chunkIDs []string) Cal
 			return Call{Op: "Stat", P: d, Q: []string{}}
 		}
 		return Call{Op: "Archive", P: d, Q: names, C: ch}
+	case x < 9:
+		// OpenFile with an arbitrary flag combination, sometimes followed by one write
+		flags := []int{0, 1, 2, 5, 6, 8, 9, 10, 13, 17, 18, 26, 41, 42}
+		k := flags[r.Intn(len(flags))]
+		p := nonRoot(target())
+		c := ""
+		wr := k%4 == 1 || k%4 == 2
+		ap, tr := (k/4)%2 == 1, (k/16)%2 == 1
+		if wr && r.Intn(2) == 0 {
+			// only where chunk-level contents can express the result (see OpenOK in STFS.tla)
+			empty := true
+			for _, v := range last.Vis {
+				if strings.Join(v.P, "/") == strings.Join(p, "/") && v.Kind == "file" && len(v.Content) > 0 {
+					empty = false
+				}
+			}
+			if ap || tr || empty {
+				c = ch
+			}
+		}
+		return Call{Op: "Open", P: p, Q: []string{}, C: c, K: k}
 	case x < 12:
 		return Call{Op: "Mkdir", P: nonRoot(fresh()), Q: []string{}}
 	case x < 18:
